@@ -112,6 +112,8 @@ impl Subscription {
     /// Returns the info for the subscription.
     pub async fn get_info(&self) -> Result<SubscriptionInfo, GetInfoError> {
         let (responder, recv) = oneshot::channel();
+        #[cfg(deltio_verif)]
+        crate::verif::point("sub.send.info").await;
         self.sender
             .send(SubscriptionRequest::GetInfo { responder })
             .await
@@ -125,6 +127,8 @@ impl Subscription {
         max_count: u16,
     ) -> Result<Vec<PulledMessage>, PullMessagesError> {
         let (responder, recv) = oneshot::channel();
+        #[cfg(deltio_verif)]
+        crate::verif::point("sub.send.pull").await;
         self.sender
             .send(SubscriptionRequest::PullMessages {
                 max_count,
@@ -142,6 +146,8 @@ impl Subscription {
         &self,
         new_messages: Vec<Arc<TopicMessage>>,
     ) -> Result<(), PostMessagesError> {
+        #[cfg(deltio_verif)]
+        crate::verif::point("sub.send.post").await;
         self.sender
             .send(SubscriptionRequest::PostMessages {
                 messages: new_messages,
@@ -156,6 +162,8 @@ impl Subscription {
         ack_ids: Vec<AckId>,
     ) -> Result<(), AcknowledgeMessagesError> {
         let (responder, recv) = oneshot::channel();
+        #[cfg(deltio_verif)]
+        crate::verif::point("sub.send.ack").await;
         self.sender
             .send(SubscriptionRequest::AcknowledgeMessages { ack_ids, responder })
             .await
@@ -169,6 +177,8 @@ impl Subscription {
         deadline_modifications: Vec<DeadlineModification>,
     ) -> Result<(), ModifyDeadlineError> {
         let (responder, recv) = oneshot::channel();
+        #[cfg(deltio_verif)]
+        crate::verif::point("sub.send.modify").await;
         self.sender
             .send(SubscriptionRequest::ModifyDeadline {
                 deadline_modifications,
@@ -182,6 +192,8 @@ impl Subscription {
     /// Gets stats for the subscription.
     pub async fn get_stats(&self) -> Result<SubscriptionStats, GetStatsError> {
         let (responder, recv) = oneshot::channel();
+        #[cfg(deltio_verif)]
+        crate::verif::point("sub.send.stats").await;
         self.sender
             .send(SubscriptionRequest::GetStats { responder })
             .await
@@ -192,6 +204,8 @@ impl Subscription {
     /// Deletes the subscription.
     pub async fn delete(&self) -> Result<(), DeleteError> {
         let (responder, recv) = oneshot::channel();
+        #[cfg(deltio_verif)]
+        crate::verif::point("sub.send.delete").await;
         self.sender
             .send(SubscriptionRequest::Delete { responder })
             .await
